@@ -236,6 +236,36 @@ func runC01(c *eng.Ctx) {
 		standardScript(cr.rng(idx), r, 0)
 		finish(idx, r, "form:"+ss.Consumer)
 	}
+	// multi-output singleton constructors whose FIRST invocation leaves every output nil: whatever
+	// Build makes of that (today it refuses: "constructor produced no instance"), a Build that
+	// SUCCEEDS has run the constructor once
+	for _, ss := range FormSpecs() {
+		if ss.FormLifetime() != godi.Singleton {
+			continue
+		}
+		meta := pool.ByName(ss.Consumer)
+		if len(meta.Outs) < 2 {
+			continue
+		}
+		idx, mine := cr.next()
+		if !mine {
+			continue
+		}
+		c.R.Begin(idx)
+		c.R.Count("form_specs_nil_outputs", 1)
+		r := NewRun(ss.Spec, NewModel(ss.Spec), []rt.Fault{{Ctor: meta.ID, Nth: 1, Kind: rt.FNil}}, nil)
+		standardScript(cr.rng(idx), r, 0)
+		o := Digest(r)
+		var fs []Finding
+		for _, f := range MonC01(r, o) {
+			if f.Clause == "ctor-count" || f.Clause == "ctor-after-build" {
+				f.Sig += ":first-invocation-returns-nil-outputs"
+				fs = append(fs, f)
+			}
+		}
+		report(c, "C01", idx, r, fs)
+		c.R.End(idx, eng.Hash("c01-nil-outputs", ss.Spec.Canon()), true)
+	}
 	n := c.Pick(1500, 40000)
 	for k := 0; k < n; k++ {
 		idx, mine := cr.next()
